@@ -17,11 +17,11 @@ PROPS = ['C01', 'C02', 'C03', 'C04', 'C05', 'C06', 'C07', 'C08', 'C09', 'C10',
          'C11', 'C13', 'C14', 'C15', 'C17', 'C18', 'C19', 'C20']
 
 
-def run(seed, props):
+def run(seed, props, base='seeded'):
     tmp, st = make_copy('/repo', [])
     try:
         p = subprocess.run(['patch', '-p1', '-s', '-i', os.path.join(
-            HERE, 'seeded', seed, 'patch.diff')], cwd=tmp, capture_output=True,
+            HERE, base, seed, 'patch.diff')], cwd=tmp, capture_output=True,
             text=True)
         if p.returncode:
             return {'error': p.stdout + p.stderr}
